@@ -312,7 +312,7 @@ def driftLine (args0 impl : List String) : String :=
         | _ => none
       let v := match ipub with
         | some pub => verdict "C19" true (C19.Holds an pub)
-        | none => if impl == ["relinked"] then "C19:na" else "C19:FAILS oracle:unparsed"
+        | none => if impl == ["relinked"] || impl.head? == some "trusted" then "C19:na" else "C19:FAILS oracle:unparsed"
       let tags := match an with
         | none => ["omitted"]
         | some r => (if r * 1000 ≥ 4294967296 then ["unrepresentable"] else ["representable"]) ++
@@ -322,7 +322,13 @@ def driftLine (args0 impl : List String) : String :=
       -- `@link`: the path is a symbolic link to the segment file: the daemon publishes through it (C04: the file attached clients
       -- have mapped is the one that goes on being updated); "relinked" = the link was replaced or another file was updated
       let v04 := if mods.contains "@link" then " " ++ verdict "C04" m.isSome (match impl with | ["ok", _] => true | _ => false) else ""
-      s!"{mtxt} | {v}{v04} | {String.intercalate "," tags}"
+      -- in every one of these runs chronyd is absent or unsynchronised (`@leap3`): no synchronised report reaches the daemon, so
+      -- whatever a previous instance left (`@prior`, `@placeholder`) and however young the machine is (`@young`), the first record
+      -- it publishes says Unknown (C09); the script answers "trusted <status> <bound>" otherwise
+      let v09 := " " ++ verdict "C09" m.isSome (impl.head? != some "trusted")
+      let tags := tags ++ (if mods.contains "@young" then ["youngMachine"] else []) ++ (if mods.contains "@placeholder" then ["priorPlaceholder"] else []) ++
+        (if mods.contains "@leap3" then ["chronyUnsync"] else [])
+      s!"{mtxt} | {v}{v04}{v09} | {String.intercalate "," tags}"
 
 /-! ### seqlock scenarios -/
 
